@@ -42,12 +42,16 @@ Theorem C14_derivative_modes_analytic :
 Proof. exact derivative_modes_analytic. Qed.
 Print Assumptions C14_derivative_modes_analytic.
 
-(* cubic_bspline_value (the kernel of the transposed algorithm and its derivatives) is the same B on every piece *)
+(* cubic_bspline_value (the kernel of the transposed algorithm and its derivatives of order 1, 2, 3; the translator checks that
+   higher orders return 0) is the same B on every piece *)
 Theorem C14_value_is_basis :
   forall (K : fld), is_field K -> char0 K ->
   forall (p : bpiece) (x : K),
-  gen_B0 p x = Bspec 0 p x /\ gen_B1 p x = Bspec 1 p x /\ gen_B2 p x = Bspec 2 p x.
-Proof. intros K Kf Kc p x. repeat split; [exact (gen_B0_spec K Kf Kc p x)|exact (gen_B1_spec K Kf Kc p x)|exact (gen_B2_spec K Kf Kc p x)]. Qed.
+  gen_B0 p x = Bspec 0 p x /\ gen_B1 p x = Bspec 1 p x /\ gen_B2 p x = Bspec 2 p x /\ gen_B3 p x = Bspec 3 p x.
+Proof.
+  intros K Kf Kc p x. repeat split;
+  [exact (gen_B0_spec K Kf Kc p x)|exact (gen_B1_spec K Kf Kc p x)|exact (gen_B2_spec K Kf Kc p x)|exact (gen_B3_spec K Kf Kc p x)].
+Qed.
 Print Assumptions C14_value_is_basis.
 
 (* 2. partition of unity; derivative weights sum to zero; linear precision (first moment about the cell) *)
